@@ -1,8 +1,8 @@
 #!/bin/bash
 # Runs every confirmed seeded change under /verif/seeded against the quick check of its property
 # (in a scratch worktree, never in /repo) and writes /verif/seeded/RESULTS.json.
-cd /verif
-out=/verif/seeded/RESULTS.json
+cd "$(dirname "$(readlink -f "$0")")/.."
+out=$PWD/seeded/RESULTS.json
 tmp=$(mktemp)
 echo "{" > $tmp
 first=1
@@ -10,10 +10,15 @@ for d in $(ls -d seeded/C*/ | sort); do
   name=$(basename $d); prop=${name%%-*}
   [ -n "${ONLY:-}" ] && [[ "$name" != $ONLY* ]] && continue
   patch=$d/patch.diff; [ -f $d/patch.rebased.diff ] && patch=$d/patch.rebased.diff
-  log=$(tools/try_seed.sh $patch $prop 2>&1)
-  rc=$(echo "$log" | grep -oE "== $prop exit=[0-9]+" | grep -oE "[0-9]+$")
+  note=""
+  # a seed that breaks its property through another property's territory is run against that check
+  # (seeded/<name>/check_with names it; DESIGN.md §8.5 says why)
+  runprop=$prop; [ -f $d/check_with ] && runprop=$(cat $d/check_with)
+  log=$(tools/try_seed.sh $patch $runprop 2>&1)
+  rc=$(echo "$log" | grep -oE "== $runprop exit=[0-9]+" | grep -oE "[0-9]+$")
+  [ "$runprop" != "$prop" ] && note="run against $runprop"
   keys=$(echo "$log" | grep -oE "key=[^ ]+" | sort -u | head -6 | tr '\n' ' ')
-  note=""; echo "$log" | grep -q "applied with fuzz" && note="patch applied with fuzz"
+  echo "$log" | grep -q "applied with fuzz" && note="$note patch applied with fuzz"
   echo "$log" | grep -q "DOES NOT APPLY" && note="patch no longer applies to the current tree"
   [ $first -eq 0 ] && echo "," >> $tmp; first=0
   printf ' "%s": {"property": "%s", "check_exit": "%s", "detected": %s, "keys": "%s", "note": "%s"}' "$name" "$prop" "$rc" "$([ "$rc" = "1" ] && echo true || echo false)" "$keys" "$note" >> $tmp
